@@ -126,10 +126,13 @@ pub(crate) trait SenderLink: Link + LinkExt {
     where
         Fut: Future<Output = Option<LinkFrame>> + Send;
 
-    /// Send message with delivery tag that is obtained by consuming a link credit
+    /// Send message with delivery tag that is obtained by consuming a link credit.
+    ///
+    /// `permits` is the room reserved in `writer` for all transfers of the delivery, if any was
     async fn send_payload_with_transfer(
         &self,
         writer: &mpsc::Sender<LinkFrame>,
+        permits: Option<mpsc::PermitIterator<'_, LinkFrame>>,
         message_format: MessageFormat,
         transfer: Transfer,
         payload: Payload,
